@@ -228,6 +228,108 @@ func runRacePair(c fw.Case) fw.Result {
 	return r
 }
 
+// runRaceStartup: requests arrive while Run() is still inside its start-up
+// loop over a large project (the first milliseconds).
+func runRaceStartup(c fw.Case) fw.Result {
+	var sp struct {
+		N       int      `json:"n"`
+		DelayUs int      `json:"delay_us"`
+		Ops     []string `json:"ops"`
+	}
+	c.Params(&sp)
+	r := fw.Result{NonTrivial: true}
+	w := sim.NewWorld(c.Seed)
+	w.BackoffUnit = 5 * time.Millisecond
+	w.NoOutEvents = true
+	sim.SetCurrent(w)
+	defer sim.Forget(w)
+	var b strings.Builder
+	b.WriteString("version: \"0.5\"\nprocesses:\n")
+	var names []string
+	for i := 0; i < sp.N; i++ {
+		n := fmt.Sprintf("s%03d", i)
+		names = append(names, n)
+		sc := sim.Script{W: w.ID, RunMs: []int{-1}}
+		if i%3 == 0 {
+			sc.RunMs = []int{1 + i%4}
+		}
+		fmt.Fprintf(&b, "  %s:\n    command: %s\n", n, yq(sim.FormatCommand(sc, "")))
+		if i%7 == 6 {
+			fmt.Fprintf(&b, "    depends_on:\n      %s:\n        condition: process_started\n", names[i-1])
+		}
+	}
+	env, err := sim.NewEnv(w, b.String(), sim.EnvOpts{})
+	if err != nil {
+		r.Inconclusive = err.Error()
+		w.Close()
+		return r
+	}
+	defer env.Cleanup()
+	run := env.Runner
+	env.Start()
+	var wg sync.WaitGroup
+	for gi, op := range sp.Ops {
+		wg.Add(1)
+		go func(gi int, op string) {
+			defer wg.Done()
+			rng := rand.New(rand.NewSource(c.Seed + int64(gi)*104729))
+			time.Sleep(time.Duration(sp.DelayUs+rng.Intn(300)) * time.Microsecond)
+			switch op {
+			case "shutdown":
+				_ = run.ShutDownProject()
+			case "states":
+				for i := 0; i < 20; i++ {
+					_, _ = run.GetProcessesState()
+				}
+			case "start":
+				for i := 0; i < 10; i++ {
+					_ = run.StartProcess(names[rng.Intn(len(names))])
+				}
+			case "stop":
+				for i := 0; i < 10; i++ {
+					_ = run.StopProcess(names[rng.Intn(len(names))])
+				}
+			case "scale":
+				_ = run.ScaleProcess(names[rng.Intn(len(names))], 2)
+			case "project_state":
+				for i := 0; i < 10; i++ {
+					_, _ = run.GetProjectState(false)
+				}
+			}
+		}(gi, op)
+	}
+	done := make(chan struct{})
+	go func() { wg.Wait(); close(done) }()
+	select {
+	case <-done:
+	case <-time.After(40 * time.Second):
+		r.Add("C20", "api-call-blocked", "requests %v issued %d us after Run() began on a project of %d processes did not all return within 40 s (goroutine dump attached)", sp.Ops, sp.DelayUs, sp.N)
+		r.Witness = filterDump(sim.GoroutineDump())
+		r.Dirty = true
+		return r
+	}
+	sd := make(chan struct{})
+	go func() { _ = run.ShutDownProject(); close(sd) }()
+	select {
+	case <-sd:
+	case <-time.After(30 * time.Second):
+		r.Add("C20", "shutdown-blocked", "ShutDownProject after start-up requests %v did not return within 30 s", sp.Ops)
+		r.Witness = filterDump(sim.GoroutineDump())
+		r.Dirty = true
+		return r
+	}
+	if out := env.WaitRun(5*time.Second, 30*time.Second); out == sim.RunHang {
+		r.Add("C20", "run-blocked", "Run() did not return after start-up requests %v and a completed shutdown", sp.Ops)
+		r.Witness = filterDump(sim.GoroutineDump())
+		r.Dirty = true
+	} else if out != sim.RunReturned {
+		r.Dirty = true
+	}
+	r.Count("startup_scenarios", 1)
+	r.Sig = sim.Hash(strings.Join(sp.Ops, "+") + fmt.Sprint(sp.N, sp.DelayUs/200))
+	return r
+}
+
 func cloneProject(p *types.Project) *types.Project {
 	cp := *p
 	cp.Processes = types.Processes{}
@@ -355,9 +457,23 @@ func init() {
 				ops := []string{rcOps[rng.Intn(len(rcOps))], rcOps[rng.Intn(len(rcOps))], rcOps[rng.Intn(len(rcOps))]}
 				cs = append(cs, fw.MkCase("C20", "triple", fw.SubSeed(seed, 100000+t), rcSpec{Ops: ops, Iters: iters, Shape: t % 3}))
 			}
+			// requests during the first milliseconds of Run() on large projects
+			sops := []string{"shutdown", "states", "start", "stop", "scale", "project_state"}
+			for t := 0; t < tierN(tier, 120, 1200); t++ {
+				ops := []string{"shutdown", sops[rng.Intn(len(sops))], sops[rng.Intn(len(sops))]}
+				if t%4 == 3 {
+					ops[0] = sops[1+rng.Intn(len(sops)-1)]
+				}
+				cs = append(cs, fw.MkCase("C20", "startup", fw.SubSeed(seed, 200000+t), map[string]any{"n": 60 + rng.Intn(120), "delay_us": rng.Intn(2500), "ops": ops}))
+			}
 			return cs
 		},
-		Run:            runRacePair,
+		Run: func(c fw.Case) fw.Result {
+			if c.Kind == "startup" {
+				return runRaceStartup(c)
+			}
+			return runRacePair(c)
+		},
 		Workers:        func(string) int { return 16 },
 		PerCaseTimeout: 150 * time.Second,
 		WatchdogFinding: func(dump string) *fw.Finding {
